@@ -424,7 +424,8 @@ func init() {
 	Register(&Prop{
 		ID:    "C17",
 		Title: "Dialect options rewrite only syntax and preserve query meaning",
-		Rule: "rapid draws a table (typed columns plus keys that need selector quoting: multi-byte, brackets, double quotes, spaces, nested arrays), a " +
+		Rule: "[Dimensions added in rounds p-r of the seeded-defect evaluation: in a third of the cases the options of the variant are listed in reverse order.] " +
+			"rapid draws a table (typed columns plus keys that need selector quoting: multi-byte, brackets, double quotes, spaces, nested arrays), a " +
 			"select list mixing typed expressions (C02 grammar), string literals over an alphabet of \" ' ` \\ [ ] and multi-byte runes, identifiers " +
 			"in selector syntax, aliases with the same hostile characters, ARRAY expressions nested to depth 4 (with literals containing brackets, " +
 			"identifiers containing brackets, FIRST/LAST over arrays), an optional WHERE, and a non-empty option set out of the 2^3-1 combinations; " +
